@@ -36,6 +36,17 @@ func checkProtoSource(c *core.Ctx, g *model.GenPkg, rawVar string, got *descript
 	protoPath := filepath.Join(filepath.Dir(goFile), base+".proto")
 	pos := strings.TrimPrefix(protoPath, c.Repo+"/")
 	if _, err := os.Stat(protoPath); err != nil {
+		// not next to the generated file: try the registered path under the repository root and proto/
+		for _, root := range []string{c.Repo, filepath.Join(c.Repo, "proto")} {
+			cand := filepath.Join(root, filepath.FromSlash(got.GetName()))
+			if _, err2 := os.Stat(cand); err2 == nil && filepath.Base(cand) == base+".proto" {
+				protoPath = cand
+				pos = strings.TrimPrefix(protoPath, c.Repo+"/")
+				break
+			}
+		}
+	}
+	if _, err := os.Stat(protoPath); err != nil {
 		c.Undec("COH.proto", con, "no schema source "+pos+" next to the generated file: the embedded descriptor cannot be compared with the schema given to the generator", pos, src)
 		return
 	}
